@@ -23,6 +23,11 @@ def shards(mode, bin_, n, **kw):
 
 
 PROPS = {
+    "C03": {
+        "runs": [{"mode": "native-dev", "bin": "c03"}],
+        "expect_monitors": ["clamp_contract", "clamping_and_checked_conversion"],
+        "assumptions": ASSUME_COMMON + ["documented bounds typed from the min_*/max_* accessor docs (refmodel::space::Space::clamp_bounds); for HWB only the relations (within bounds, identity, idempotence) are required, how an excess w+b is distributed is unspecified"],
+    },
     "C01": {
         "runs": [{"mode": "native-dev", "bin": "c01"}],
         "expect_monitors": ["round_trip", "commutation", "alpha_transparent_to_conversion"],
